@@ -147,6 +147,17 @@ CHECKS = {
              "zip payloads, pickle.loads and torch.storage._load_from_bytes). Known finding: PyTorch containers nested through "
              "torch.storage._load_from_bytes are not mediated. Trusted: CPython's Unpickler.load resolves every global through self.find_class.",
         ref="§C07"),
+    "C04": dict(
+        text="Proof of the analysis layer for an arbitrary witness: over the module a pickle decompiles to (what ASTProperties collects, as ghost "
+             "functions of the opcode sequence) the real NonStandardImports / UnsafeImportsML / BadCalls / OvertlyBadEvals.analyze are verified "
+             "to yield a finding of at least the floor's rank whenever the offending import / call exists at any index (rigid ghost witness, "
+             "loop invariants, no bound on the number of nodes); AnalysisContext.analyze is verified to keep every finding; Analyzer.analyze with "
+             "the default analyses (order read from the live import) is verified to reach the owning analysis with the de-duplication set in "
+             "the state it needs; check_safety and AnalysisResults.severity (maximum) give the verdict floor as a lemma program.",
+        note="Layer A (every import / call the VM would perform is anchored in the module) is C03; the glue is trusted: ast.NodeVisitor collects "
+             "every node, ast.unparse of a call starts with the callee name, str.rsplit/count enumerate dotted prefixes. The composition over "
+             "opcode choice / memo / disposal / framing is the bounded companion replay/floor_diff.py (11.5k programs). One defect repaired.",
+        ref="§C04"),
 }
 NA_REASON = "check not built yet (work in progress; see DESIGN.md)"
 
